@@ -14,6 +14,7 @@ pub struct SetSide<P: TP> {
     pub drift: i64,
     /// only insert, remove, retain, clear, from_iter were used
     pub canonical: bool,
+    pub peak_nodes: usize,
 }
 
 fn rs<P: TP>(env: &Env, p: PRef) -> (P, Raw) {
@@ -60,6 +61,10 @@ pub fn observe_set<P: TP>(s: &mut SetSide<P>, env: &mut Env) -> R {
         if s.drift == 0 {
             ensure!(s.set.is_empty() == (n == 0), "C04", "C04:is_empty", "step {step}: PrefixSet::is_empty() = {} with {} entries", s.set.is_empty(), n);
         }
+    }
+    if f.has(16) {
+        let emptied = s.canonical && s.model.m.is_empty();
+        crate::observe::check_arena_raw(s.set.verif_arena(), &mut s.peak_nodes, emptied, "set", env)?;
     }
     if f.has(15) {
         env.cur_op = "set.view";
@@ -313,6 +318,7 @@ pub fn apply_set<P: TP>(s: &mut SetSide<P>, op: &Op, env: &mut Env) -> R<bool> {
             s.model = model;
             s.drift = 0;
             s.canonical = true;
+            s.peak_nodes = 1;
             env.ev("from_iter");
         }
         Op::CloneSwap { .. } | Op::Collect { .. } => {
@@ -433,6 +439,7 @@ pub fn run_set_history<P: TP>(ops: &[Op], env: &mut Env) -> R<SetSide<P>> {
         model: Model::new(),
         drift: 0,
         canonical: true,
+        peak_nodes: 1,
     };
     for (i, op) in ops.iter().enumerate() {
         env.step = i;
